@@ -1,6 +1,7 @@
 package main
 
 import (
+	"slices"
 	"sort"
 	"encoding/json"
 	"crypto/sha256"
@@ -292,8 +293,12 @@ func (e *c07env) runSchedule(t *tracer, sc scenario, prefix []int, schedID int, 
 			break
 		}
 		pick := enabled[0]
-		if step < len(prefix) {
+		if step < len(prefix) && slices.Contains(enabled, prefix[step]) {
+			// (a prefix recorded in an earlier execution may name a thread that has already finished in this one: state that outlives
+			// an execution - a package-level cache, say - makes the code take fewer steps the second time; any enabled thread will do)
 			pick = prefix[step]
+		} else if step < len(prefix) {
+			pick = enabled[0]
 		} else if picker != nil {
 			pick = picker(enabled)
 		}
